@@ -1149,13 +1149,15 @@ def run(ctx):
         two = [wl for wl in core_workloads() if len(wl["readers"]) + (1 if wl["feeder"] else 0) == 2]
         rng.shuffle(two)
         before = ctx.counters.get("preemption_points_reached", 0)
+        done = 0
         for i, wl in enumerate(two):
             if not ctx.mine(i):
                 continue
-            if ctx.elapsed() > t_instr:
+            if done >= 1 and ctx.elapsed() > t_instr:  # the first one is unconditional (count-based floor)
                 break
-            sweep(ctx, eng, wl, stats, t_instr + 2)
+            sweep(ctx, eng, wl, stats, float("inf") if done == 0 else t_instr + 2)
             ctx.count("workloads_swept_at_instruction_granularity")
+            done += 1
         ctx.count("instruction_preemption_points_reached", ctx.counters.get("preemption_points_reached", 0) - before)
         ctx.count("engine_line_callbacks", eng.stats["line_events"])
     ctx.guard(zero_pipe_level, ctx)
